@@ -279,6 +279,7 @@ def check(facts, rep, tier, cfg):
     rep.rule("C07.S7", "who-may: the functions that touch the critical resources behind this property are those of the reference tree (flow table, closed flag, per-stream / datagram / outbound queues, last-pong timestamp, client id maps, shared TLS identity)")
     import whomay
     whomay.check(facts, rep, "C07.S7", "C07")
+    whomay.check_new_statics(facts, rep, "C07.S7", "C07")
 
 
 def rules_establish_ok(facts, b, tr, site):
